@@ -181,7 +181,7 @@ func process(in io.Reader, out io.Writer, p *Palette, s stack.Similarity, pf pat
 			continue
 		}
 		if len(suffix) != 0 {
-			if _, err1 := out.Write(suffix); err == nil {
+			if _, err1 := out.Write(suffix); err1 != nil && (err == nil || err == io.EOF) {
 				err = err1
 			}
 		}
